@@ -264,7 +264,7 @@ func ToInteger(p Primary) Primary {
 		if math.IsNaN(val.Raw()) || math.IsInf(val.Raw(), 0) {
 			return NewNull()
 		}
-		return NewInteger(int64(val.Raw()))
+		return NewInteger(float64ToInt64(val.Raw()))
 	case *String:
 		s := option.TrimSpace(val.Raw())
 		if i, e := strconv.ParseInt(s, 10, 64); e == nil {
@@ -274,11 +274,23 @@ func ToInteger(p Primary) Primary {
 			if math.IsNaN(f) || math.IsInf(f, 0) {
 				return NewNull()
 			}
-			return NewInteger(int64(f))
+			return NewInteger(float64ToInt64(f))
 		}
 	}
 
 	return NewNull()
+}
+
+// float64ToInt64 drops the decimal places. A value beyond the range of integers becomes the nearest integer there is
+// (the result of a plain conversion is not defined for such values and differs between platforms).
+func float64ToInt64(f float64) int64 {
+	if 9223372036854775807 <= f {
+		return math.MaxInt64
+	}
+	if f <= -9223372036854775808 {
+		return math.MinInt64
+	}
+	return int64(f)
 }
 
 func ToIntegerStrictly(p Primary) Primary {
